@@ -234,7 +234,9 @@ Section F.
                   ~ In (pg ev) (Hd s)) ->
     FI (fst (Processor.flush fc fp lim_n lim_s fuel s bs i)).
   Proof.
-    induction fuel as [|f IH]; intros s bs i Hi P F Hin Nd Fr; simpl; auto.
+    induction fuel as [|f IH]; intros s bs i Hi P F Hin Nd Fr; simpl.
+    { destruct (Nat.ltb (bs_processed bs) (length (bs_results bs)) && nth i (bs_results bs) false); simpl; auto.
+      apply (FI_ext s _ []); auto. }
     destruct (Nat.ltb (bs_processed bs) (length (bs_results bs)) && nth i (bs_results bs) false); auto.
     destruct (nth_error (b_events (bs_batch bs)) i) as [ev|] eqn:En; auto.
     assert (Hev : In ev (tab s)) by (apply Hin; eapply nth_error_In; eauto).
@@ -274,7 +276,7 @@ Section F.
       + apply (FI_ext s _ [PBusy (b_id b0)]); auto; try npp.
       + set (sm := mkPst (buf s) (pushed s) (tab s ++ b_events b0) (highest s) (held_n s + batch_num b0)
                          (held_s s + batch_size b0) (warned s) (queue s ++ [mkBs b0 [] [] (map (fun _ => false) (b_events b0)) 0 []])
-                         (plog s) (stopped s)).
+                         (plog s) (stopped s) (poof s)).
         assert (Fm : FI sm).
         { destruct F as [F1 F2 F3 F4].
           assert (Hpp : forall g e ok, In (PProcess g e ok) (plog s) -> In g (map pg (tab s))).
